@@ -116,7 +116,11 @@ ToDecimal(neg, int, frac, expneg, exp) ==
         sig == DropLeadingZeros(int \o fr)
         ex == IF Len(DropLeadingZeros(exp)) > 4 THEN 9999 ELSE DigitsToNat(DropLeadingZeros(exp))
         e == (IF expneg THEN 0 - ex ELSE ex) - Len(fr)
-    IN IF sig = <<>> THEN Zero ELSE Dec(neg, DigitsToNat(sig), e)
+        \* TLC integers are 32 bit: keep 9 significant digits (longer literals are truncated, not rounded;
+        \* they only arise from mutated inputs and at worst cause DRIFT in a limit comparison)
+        cut == IF Len(sig) > 9 THEN Len(sig) - 9 ELSE 0
+        sig9 == SubSeq(sig, 1, Len(sig) - cut)
+    IN IF sig = <<>> THEN Zero ELSE Dec(neg, DigitsToNat(sig9), e + cut)
 
 RECURSIVE Lex(_, _, _)
 Lex(cs, i, toks) ==
